@@ -105,6 +105,22 @@ let handle fields =
        | VBool b -> if b then "B1" else "B0"
        | VInt z -> "I" ^ string_of_int (int_of_z z)
        | VStr u -> "S" ^ field_of_ustr u)
+  | ["lt"; src; nsrc] ->
+      let (n, ok) = len_trim (ustr_of_field src) (nat_of_int (int_of_string nsrc)) in
+      (if ok then "1|" else "0|") ^ string_of_int (int_of_nat n)
+  | ["cp"; dest; ndest; src; nsrc] ->
+      let s = if src = "-" then None else Some (ustr_of_field src) in
+      let (o, ok) = str_copy (ustr_of_field dest) (nat_of_int (int_of_string ndest)) s (z_of_int (int_of_string nsrc)) in
+      (if ok then "1|" else "0|") ^ field_of_ustr o
+  | ["bf"; dest; ndest] ->
+      let (o, ok) = blank_fill (ustr_of_field dest) (nat_of_int (int_of_string ndest)) in
+      (if ok then "1|" else "0|") ^ field_of_ustr o
+  | ["al"; src; nsrc; ntrim] ->
+      let (o, ok) = str_alloc (ustr_of_field src) (nat_of_int (int_of_string nsrc)) (z_of_int (int_of_string ntrim)) in
+      (if ok then "1|" else "0|") ^ field_of_ustr o
+  | ["aa"; src; nsrc; len] ->
+      let (o, ok) = str_array_alloc (ustr_of_field src) (nat_of_int (int_of_string nsrc)) (nat_of_int (int_of_string len)) in
+      (if ok then "1|" else "0|") ^ lines_out o
   | ["lstrip"; s] -> field_of_ustr (lstrip (ustr_of_field s))
   | ["rstrip"; s] -> field_of_ustr (rstrip (ustr_of_field s))
   | _ -> "BADCMD"
